@@ -25,7 +25,14 @@ import (
 	"github.com/tjfoc/gmsm/x509"
 )
 
-const certDir = "/repo/gmtls/websvr/certs/"
+// test certificates of the tree under verification (the code under test itself comes from the module replace)
+var certDir = func() string {
+	root := os.Getenv("VERIF_REPO")
+	if root == "" {
+		root = "/repo"
+	}
+	return root + "/gmtls/websvr/certs/"
+}()
 
 type fixtures struct {
 	sig, enc, rsa        gmtls.Certificate // server certificates
